@@ -152,6 +152,12 @@ func CalcExitPool(
 		weightBreakingFee := GetWeightBreakingFee(finalWeightIn, finalWeightOut, targetWeightIn, targetWeightOut, initialWeightIn, initialWeightOut, distanceDiff, params)
 
 		tokenOutAmount := oracleOutAmount.Mul(sdkmath.LegacyOneDec().Sub(weightBreakingFee)).RoundInt()
+		// as in the pro-rata branch below, an exit must never take the whole reserve of an asset
+		for _, asset := range pool.PoolAssets {
+			if asset.Token.Denom == tokenOutDenom && tokenOutAmount.GTE(asset.Token.Amount) {
+				return sdk.Coins{}, sdkmath.LegacyZeroDec(), errors.New("too many shares out")
+			}
+		}
 		return sdk.Coins{sdk.NewCoin(tokenOutDenom, tokenOutAmount)}, weightBreakingFee.Neg(), nil
 	}
 
